@@ -270,7 +270,22 @@ def main():
             chk.violation('%s/does-not-build/%s/%s' % (PID, fam.name, e.stage), 'generated code of %s does not build (%s): %s' % (fam.name, e.stage, e.out[-300:].decode('latin1')), {'family': fam.name})
             continue
         names = [e.name for e in fam.entities if not e.abstract]
-        eg, tg, inst = read_dict(lib, names)
+        try:
+            eg, tg, inst = read_dict(lib, names)
+        except drv.Crash as e:
+            # isolate on the sanitizer build for the site
+            key = e.key()
+            try:
+                sl = build.schema_lib(fam.express(), 'san')
+                with drv.Driver('dictdump', sl, 'san', timeout=120) as d2:
+                    d2.cmd(e.cmd)
+            except drv.Crash as e2:
+                key = e2.key()
+            except Exception:
+                pass
+            chk.violation('%s/dictionary-walk-crash/%s/%s/%s' % (PID, key[0], key[1], fam.name), 'walking the dictionary of %s crashes on %r (%s in %s)' % (fam.name, e.cmd, key[0], key[1]), {'family': fam.name, 'schema': fam.express()[:4000]})
+            chk.outcome('crash')
+            continue
         v = compare(fam, ee, te, eg, tg, inst)
         chk.count(states=len(ee) + len(te), transitions=sum(3 + len(e['attrs']) for e in ee.values()) + len(te) + len(names))
         chk.cls(fam.name)
